@@ -61,7 +61,7 @@ class _ProxyMeta(type):
         return cls._space.make(cls._real, *a, **k)
 
     def __getattr__(cls, k):
-        if k.startswith("__") and k.endswith("__"):
+        if k.startswith("__") and k.endswith("__") and not k.startswith("__dask_"):
             raise AttributeError(k)
         return getattr(cls._space.subclass(cls._real), k)
 
